@@ -249,6 +249,68 @@ fn main() {
             });
             match r { Ok(v) => println!("{}", v), Err(_) => println!("{}", json!({"panic": true})) }
         }
+        "group_scenario" => {
+            // group_scenario an bn as ae bs be : Value::try_add on every kind pair and GroupedValue::add histories
+            use cooklang::quantity::{GroupedValue, TryAdd};
+            let v: Vec<f64> = args[2..8].iter().map(|s| f(s)).collect();
+            let (an, bn, a_s, a_e, b_s, b_e) = (v[0], v[1], v[2], v[3], v[4], v[5]);
+            let num = |x: f64| Value::Number(Number::Regular(x));
+            let rng = |s: f64, e: f64| Value::Range { start: Number::Regular(s), end: Number::Regular(e) };
+            let frac = Value::Number(Number::Fraction { whole: 1, num: 1, den: 2, err: 0.0 });
+            let txt = |s: &str| Value::Text(s.to_string());
+            let mut problems: Vec<String> = vec![];
+            let ends = |v: &Value| -> Option<(f64, f64, bool)> { match v { Value::Number(n) => Some((n.value(), n.value(), false)), Value::Range { start, end } => Some((start.value(), end.value(), true)), _ => None } };
+            let mut expect = |name: &str, a: &Value, b: &Value| {
+                let r = std::panic::catch_unwind(|| a.try_add(b));
+                let (ea, eb) = (ends(a), ends(b));
+                match (r, ea, eb) {
+                    (Err(_), _, _) => problems.push(format!("{name}: try_add panicked")),
+                    (Ok(Ok(out)), Some((s1, e1, r1)), Some((s2, e2, r2))) => match ends(&out) {
+                        Some((s, e, r)) => { if r != (r1 || r2) || !close(s, s1 + s2) || !close(e, e1 + e2) { problems.push(format!("{name}: {:?} + {:?} = {:?}", a, b, out)); } }
+                        None => problems.push(format!("{name}: numeric sum became text")),
+                    },
+                    (Ok(Ok(out)), _, _) => problems.push(format!("{name}: text operand accepted, got {:?}", out)),
+                    (Ok(Err(e)), Some(_), Some(_)) => problems.push(format!("{name}: numeric operands refused: {e}")),
+                    (Ok(Err(e)), _, _) => { let t = if a.is_text() { a } else { b }; if &e.0 != t { problems.push(format!("{name}: error carries {:?} instead of {:?}", e.0, t)); } }
+                }
+            };
+            use cooklang::quantity::QuantityValue;
+            expect("N+N", &num(an), &num(bn));
+            expect("N+R", &num(an), &rng(b_s, b_e));
+            expect("R+N", &rng(a_s, a_e), &num(bn));
+            expect("R+R", &rng(a_s, a_e), &rng(b_s, b_e));
+            expect("F+N", &frac, &num(bn));
+            expect("T+N", &txt("pinch"), &num(bn));
+            expect("R+T", &rng(a_s, a_e), &txt("some"));
+            expect("T+T", &txt("a"), &txt("b"));
+            // grouped value histories
+            let hist: Vec<Vec<Value>> = vec![
+                vec![txt("x"), num(an), txt("y"), rng(b_s, b_e), num(bn)],
+                vec![num(an), num(bn), txt("x")],
+                vec![txt("x"), txt("y"), rng(a_s, a_e)],
+                vec![rng(a_s, a_e), txt("x"), frac.clone(), txt("x")],
+            ];
+            for h in &hist {
+                let r = std::panic::catch_unwind(|| { let mut g = GroupedValue::empty(); for v in h { g.add(v); } g.into_vec() });
+                match r {
+                    Err(_) => problems.push(format!("GroupedValue::add panicked on {:?}", h)),
+                    Ok(out) => {
+                        let texts: Vec<&Value> = h.iter().filter(|v| v.is_text()).collect();
+                        let nums: Vec<&Value> = h.iter().filter(|v| !v.is_text()).collect();
+                        let want_len = texts.len() + if nums.is_empty() { 0 } else { 1 };
+                        if out.len() != want_len { problems.push(format!("group of {:?} has {} entries, expected {}", h, out.len(), want_len)); continue; }
+                        let off = if nums.is_empty() { 0 } else { 1 };
+                        for (i, t) in texts.iter().enumerate() { if &&out[off + i] != t { problems.push(format!("text entry {} changed or reordered: {:?}", i, out)); } }
+                        if !nums.is_empty() {
+                            let (mut s, mut e, mut r) = (0.0, 0.0, false);
+                            for n in &nums { let (a, b, rr) = ends(n).unwrap(); s += a; e += b; r |= rr; }
+                            match ends(&out[0]) { Some((gs, ge, gr)) if gr == r && close(gs, s) && close(ge, e) => {}, other => problems.push(format!("group total {:?} expected {}..{} for {:?}", other, s, e, h)) }
+                        }
+                    }
+                }
+            }
+            println!("{}", json!({"problems": problems}));
+        }
         "convert_raw" => {
             // convert_raw <value> <ratio_a> <diff_a> <ratio_b> <diff_b>
             let c = Converter::bundled();
